@@ -7,6 +7,7 @@ calls, every line event after the first write-mode open, plus seeded line events
 """
 import ast
 import io
+import re
 import tokenize
 
 from hypothesis import strategies as st
@@ -50,7 +51,7 @@ def probes():
             "file_unchanged", "io_fault_fired", "line_fault_fired", "fault_after_write_open", "second_pass",
             "multiline_header", "colon_in_default", "backslash_in_docstring", "docstring_only_body",
             "types_only_docstring", "header_over_100_columns"] + [
-        "lexical_shape_" + x for x in SHAPES]
+        "lexical_shape_" + x for x in SHAPES + ("utf8_nonascii", "latin1_cookie")]
 
 
 # ------------------------------------------------------------------------------------ generators
@@ -171,10 +172,16 @@ def plans(draw, n_seeded_lines=12):
                                                                               max_size=n_seeded_lines)),
             "exc": draw(st.sampled_from(("RuntimeError", "MemoryError", "OSError", "RecursionError"))),
             # a whole-file lexical shape; each non-None shape is a listed known finding, drawn rarely
-            "shape": draw(st.sampled_from((None,) * 9 + SHAPES))}
+            "shape": draw(st.sampled_from((None,) * 9 + SHAPES + ENC_SHAPES))}
 
 
 SHAPES = ("indent2", "tab", "rawdoc", "comment_before_doc", "crlf", "arrow_default", "def_line_comment")
+# encodings: non-ASCII characters in a comment and a string constant, stored as UTF-8 or - declared by a PEP 263 coding
+# cookie - as latin-1.  Not known-bad shapes: the unchanged tree converts the first and refuses the second (an error,
+# file byte-identical).  The file is always read the way the interpreter reads it (cookie honoured).
+ENC_SHAPES = ("utf8_nonascii", "latin1_cookie")
+ENC_TAIL = "\n# r\xe9sum\xe9 of the module\nTITLE = 'ol\xe9'\n"
+ENC_COOKIE = "# -*- coding: latin-1 -*-\n"
 DEF_LINE_COMMENT = "  # trailing on the def line"
 SHAPE_COMMENT = "# note placed before the docstring"
 
@@ -183,6 +190,11 @@ def apply_shape(text, shape):
     """Lexical variants of the same program (all valid Python with the same AST, comments aside)."""
     if not shape:
         return text
+    if shape in ENC_SHAPES:
+        if shape == "latin1_cookie":
+            # everything in the file must exist in the declared encoding
+            text = text.encode("latin-1", "replace").decode("latin-1")
+        return (ENC_COOKIE if shape == "latin1_cookie" else "") + text.rstrip("\n") + "\n\n" + ENC_TAIL
     if shape in ("indent2", "tab"):
         unit = "  " if shape == "indent2" else "\t"
         out, in_doc = [], False
@@ -218,6 +230,8 @@ def apply_shape(text, shape):
 
 def unshape(text, shape):
     """Inverse of apply_shape on text produced from a shaped file (used for the counterfactual)."""
+    if shape in ENC_SHAPES:
+        return text.replace(ENC_COOKIE, "").replace(ENC_TAIL, "")
     if shape == "indent2":
         out = []
         for ln in text.split("\n"):
@@ -506,6 +520,36 @@ def _is_subsequence(need, have):
     return None
 
 
+_COOKIE = re.compile(r"^[ \t\f]*#.*?coding[:=][ \t]*([-\w.]+)")
+
+
+def _encoding_of_text(text):
+    """The encoding a file holding this text declares (PEP 263: a cookie in the first two lines), else UTF-8."""
+    for ln in text.split("\n")[:2]:
+        m = _COOKIE.match(ln)
+        if m:
+            return m.group(1)
+    return "utf-8"
+
+
+def _rd(world, rel="m.py"):
+    """The file as the interpreter reads it: bytes decoded honouring BOM / coding cookie."""
+    import io
+    import tokenize
+    data = world.read_bytes(rel)
+    if data is None:
+        return None
+    try:
+        enc = tokenize.detect_encoding(io.BytesIO(data).readline)[0]
+    except SyntaxError:
+        enc = "utf-8"
+    return data.decode(enc, "surrogateescape")
+
+
+def _wr(world, text, rel="m.py"):
+    world.write_files({rel: text.encode(_encoding_of_text(text), "surrogateescape")})
+
+
 def check_ok(before, after, info, counterfactual=None):
     """A1-A4 plus, for a file in one of the listed lexical shapes, the causal classification of each violation:
     `shape_is_cause` names the shape iff the same text with the shape undone converts without a violation of that clause."""
@@ -749,7 +793,7 @@ def simulate(plan, tier_lines=12, per_line=False):
     if shape:
         bump(probe, "lexical_shape_" + shape)
     world = SimWorld(tag="c07")
-    world.write_files({"m.py": src})
+    _wr(world, src)
     history = []
     rewrote = False
     try:
@@ -760,7 +804,7 @@ def simulate(plan, tier_lines=12, per_line=False):
     try:
         for ci, cmd in enumerate(plan["cmds"]):
             op = _op(cmd)
-            before = world.read("m.py")
+            before = _rd(world)
             try:
                 ast.parse(before)
             except SyntaxError:
@@ -773,20 +817,20 @@ def simulate(plan, tier_lines=12, per_line=False):
             stats["evaluations"] += 1
             stats["steps"] += o.steps
             bump(stats["outcomes"], "doctrans:" + o.kind)
-            after = world.read("m.py")
+            after = _rd(world)
             viols = []
             if o.kind in ("budget", "timeout"):
                 bump(stats, "nonterminating_commands")
                 history.append({"cmd": _cfg(cmd), "outcome": o.brief(), "sha": digest_of(after), "key": o.key()})
-                world.write_files({"m.py": before})
+                _wr(world, before)
                 break
             if o.ok:
                 def cf(text, op=op):
                     w2 = SimWorld(tag="c07cf")
                     try:
-                        w2.write_files({"m.py": text})
+                        _wr(w2, text)
                         ops.invoke(w2, op, budget=STEP_BUDGET)
-                        return w2.read("m.py")
+                        return _rd(w2)
                     finally:
                         w2.destroy()
                 viols = check_ok(before, after, feats, counterfactual=cf)
@@ -818,7 +862,7 @@ def simulate(plan, tier_lines=12, per_line=False):
                 res.violations += vs
                 world.restore(cp)
                 # continue the history from the fault-free post-state
-                world.write_files({"m.py": after})
+                _wr(world, after)
     finally:
         world.destroy()
     res.trace = {"kind": "c07-plan", "plan": plan, "files": {"m.py": src}, "history": history}
@@ -881,7 +925,7 @@ def _enumerate_faults(world, plan, ci, cmd, op, cp, before, reh, stats, bump, ti
         o = ops.invoke(world, op, faults=[flt], wall_s=20)
         stats["evaluations"] += 1
         bump(stats, "enumerated_faults")
-        after = world.read("m.py")
+        after = _rd(world)
         for fr in o.fired:
             if fr["seam"] == "io":
                 bump(stats["faults_fired"], "%s@%s" % (fr.get("errno", "err"), fr["event"]))
